@@ -21,6 +21,8 @@ import (
 	"github.com/dave/dst/decorator/resolver/gotypes"
 	"github.com/dave/dst/decorator/resolver/simple"
 
+	"golang.org/x/tools/go/packages"
+
 	"verif/core"
 	"verif/explore"
 	"verif/oracle"
@@ -92,7 +94,7 @@ func (r faultyRes) ResolvePackage(path string) (string, error) {
 
 // parse-goast-broken: Decorator.Parse of the template followed by a declaration with a syntax error the
 // parser recovers from (a tree and a syntax error come back when nothing is injected)
-var c17Modes = []string{"decorate-goast-inner", "decorate-goast-outer", "decorate-gotypes", "parse-goast", "restore", "restore-imports-removed", "restore-alias", "restore-file", "parse-goast-broken", "parsedir"}
+var c17Modes = []string{"decorate-goast-inner", "decorate-goast-outer", "decorate-gotypes", "parse-goast", "restore", "restore-imports-removed", "restore-alias", "restore-file", "parse-goast-broken", "parsedir", "save"}
 
 type c17Case struct {
 	Template string `json:"template"`
@@ -114,7 +116,7 @@ func init() {
 	core.Register(&core.Prop{
 		ID:    "C17",
 		Level: "fault_enumeration",
-		Rule: "fault-position enumeration (choice tree, failure = deviation): for every import-bearing template and 9 entry configurations (DecorateFile with goast failing in its inner package-name resolver / wrapped as a whole, gotypes, Decorator.Parse of the template and of the template followed by a recoverable syntax error; Restorer.Fprint with imports present / removed / alias overrides, RestoreFile), " +
+		Rule: "fault-position enumeration (choice tree, failure = deviation): for every import-bearing template and 9 entry configurations (DecorateFile with goast failing in its inner package-name resolver / wrapped as a whole, gotypes, Decorator.Parse of the template and of the template followed by a recoverable syntax error; Package.SaveWithResolver on a real file; Restorer.Fprint with imports present / removed / alias overrides, RestoreFile), " +
 			"every position in the resolver call sequence is failed, in histories fail@k1 -> retry, fail@k1 -> fail@k2 -> retry, and three (thorough: four) failures before the retry (fresh decorator/restorer, same input, shared syntax resolver instance); " +
 			"oracle: error returned and errors.Is(injected), no panic, nothing written, no tree returned, input ast/dst snapshot unchanged, final retry equals the failure-free result; non-trivial = execution with at least one injected failure",
 		Assumptions: []string{"the resolver call order inside the restorer is a map order: every call position of the order that occurred is failed, map orders themselves are explored under C16"},
@@ -391,6 +393,32 @@ func c17Exec(cs c17Case, c *explore.Chooser) core.Outcome {
 					af, err = r.RestoreFile(df)
 					if err != nil && af != nil {
 						wrote = 1
+					}
+				case "save":
+					// Package.SaveWithResolver on a real file: on failure the file on disk keeps its bytes
+					dir, derr := scratchDir("c17save")
+					if derr != nil {
+						panic(derr)
+					}
+					defer os.RemoveAll(dir)
+					name := filepath.Join(dir, "a.go")
+					os.WriteFile(name, []byte(src), 0o644)
+					pdec := decorator.NewDecoratorWithImports(token.NewFileSet(), localPath, goast.WithResolver(simple.New(stdNames)))
+					pf, perr := pdec.ParseFile(name, nil, 0)
+					if perr != nil {
+						panic(perr)
+					}
+					// an edit, so that a successful save has something to write
+					pf.Decs.Start.Prepend("// saved")
+					pkg := &decorator.Package{Package: &packages.Package{PkgPath: localPath}, Dir: dir, Decorator: pdec, Imports: map[string]*decorator.Package{}, Syntax: []*dst.File{pf}}
+					err = pkg.SaveWithResolver(faultyRes{simple.New(stdNames), ctl})
+					onDisk, _ := os.ReadFile(name)
+					if err != nil && string(onDisk) != src {
+						wrote = 1 // the file was touched although the save failed
+					}
+					buf.WriteString(string(onDisk))
+					if err != nil {
+						buf.Reset()
 					}
 				default:
 					err = r.Fprint(&buf, df)
